@@ -71,7 +71,7 @@ func (c *c03Gen) body(sc *c03Scope) string {
 	}
 	for i := 0; i < n && c.budget > 0; i++ {
 		c.budget--
-		w := []int{5, 6, 1, 3, 2, 2, 2, 1, 1, 1, 1}
+		w := []int{5, 6, 1, 3, 2, 2, 2, 1, 1, 1, 1, 2}
 		if sc.depth >= 3 {
 			w[3], w[4] = 0, 0
 		}
@@ -224,6 +224,22 @@ func (c *c03Gen) body(sc *c03Scope) string {
 				fmt.Fprintf(&sb, "len = lambda x: %d\n", c.nid())
 			}
 			fmt.Fprintf(&sb, "_log.append((%d, len([1, 2])))\n", id)
+		case 11: // an import statement binds a name: the first component of a dotted name, or the name after "as"
+			c.kinds["import-binds"] = true
+			nm := c.name()
+			switch g.N(4) {
+			case 0:
+				fmt.Fprintf(&sb, "import math as %s\n", nm)
+			case 1:
+				fmt.Fprintf(&sb, "try:\n    import %s.sub.leaf\nexcept ImportError:\n    pass\n", nm)
+			case 2:
+				fmt.Fprintf(&sb, "try:\n    import %s.sub\nexcept ImportError:\n    pass\n", nm)
+			default:
+				fmt.Fprintf(&sb, "from math import pi as %s\n", nm)
+			}
+			if sc.kind == "function" && sc.declared[nm] == "" {
+				inner.fnBound[nm] = true
+			}
 		case 10: // misplaced declaration (only in the illegal-declaration mode)
 			if c.illegal && sc.kind != "module" || c.illegal && g.Chance(1, 2) {
 				c.kinds["misplaced-decl"] = true
